@@ -118,6 +118,7 @@ class SimDevice:
             return
         entry.update(ok=True, frame=p.frame, device_id=p.device_id, timestamp=p.timestamp)
         frames = self.ac.handle(p.frame)
+        self.last_resp_frames = frames
         entry["accepted"] = bool(frames) or not self.ac.rejected or self.ac.rejected[-1][0] != p.frame
         self._dispatch(conn, "data", [self.wrap(conn, f) for f in frames], p.frame, True, data)
 
@@ -197,6 +198,7 @@ class SimDevice:
                 return
             entry.update(ok=True, frame=v2.frame, device_id=v2.device_id, timestamp=v2.timestamp)
             frames = self.ac.handle(v2.frame)
+            self.last_resp_frames = frames
             self._dispatch(conn, "data", [self.wrap(conn, f) for f in frames], v2.frame, True, data)
             return
         entry["error"] = f"unexpected type {ptype}"
